@@ -36,6 +36,10 @@ def gen_enum(maxlen: int) -> Iterator[Dict[str, Any]]:
                     ops += [["fire", 1, pos], ["list"]]
                 ops += [["fire", 3, 1], ["list"]]
                 yield {"cfg": {"tasks": tasks}, "ops": ops, "family": "label_enum"}
+                if order == orders[0]:
+                    # the foreign task 2 (listed as foreign at least once) becomes a task of the own broker, is listed and fires
+                    yield {"cfg": {"tasks": [tasks[1], tasks[0], tasks[2]]}, "family": "label_enum_adopt",
+                           "ops": [["list"], ["fire", 2, order[0]], ["list"], ["adopt", 1], ["list"], ["fire", 1, 1], ["list"], ["fire", 2, 1]]}
                 if L >= 2:
                     # the same lists with explicit schedule ids: one id shared by every entry of task 1, and two ids alternating
                     for pat, fam in ((lambda i: 1, "label_enum_sameid"), (lambda i: 1 + i % 2, "label_enum_twoids")):
@@ -59,7 +63,8 @@ def gen_random(seed: int, n: int) -> List[Dict[str, Any]]:
             tasks.append({"own": rng.random() < 0.8, "entries": entries})
         ops: List[Any] = []
         for _ in range(rng.randint(1, 8)):
-            ops.append(["list"] if rng.random() < 0.35 else ["fire", rng.randint(1, len(tasks)), rng.randint(1, 5)])
+            x = rng.random()
+            ops.append(["list"] if x < 0.35 else ["adopt", rng.randint(1, len(tasks))] if x < 0.45 else ["fire", rng.randint(1, len(tasks)), rng.randint(1, 5)])
         out.append({"cfg": {"tasks": tasks}, "ops": ops, "family": "label_random"})
     return out
 
